@@ -7,6 +7,10 @@ namespace {
 struct BbHarness : Harness {
     const char *name() const override { return "bbsim"; }
     std::vector<std::string> props() const override { return {"C18"}; }
+    std::vector<std::string> probes(const std::string &) const override {
+        return {"rewind_partial", "rewind_fully_consumed", "add_exactly_fills", "add_refused", "consume_refused", "consume_at_most_clipped",
+                "invalid_setup_null_memory", "invalid_setup_zero_size", "invalid_setup_used_gt_size", "invalid_setup_offset_gt_used"};
+    }
     uint64_t runs(const std::string &, const Tier &t) const override { return t.thorough() ? 20000000 : 1500000; }
 
     Json describe(const std::string &) const override {
@@ -216,9 +220,5 @@ struct BbHarness : Harness {
 
 int main(int argc, char **argv) {
     BbHarness h;
-    for (const char *p : {"probe.rewind_partial", "probe.rewind_fully_consumed", "probe.add_exactly_fills", "probe.add_refused",
-                          "probe.consume_refused", "probe.consume_at_most_clipped", "probe.invalid_setup_null_memory",
-                          "probe.invalid_setup_zero_size", "probe.invalid_setup_used_gt_size", "probe.invalid_setup_offset_gt_used"})
-        (void)counters().id(p);
     return sim_main(argc, argv, h);
 }
